@@ -71,6 +71,9 @@ Fifo3          == N("fifo3", "", 0, <<>>, <<>>)     \* exec 3<>/tmp/fifo (never 
 ReadWith(g, n) == N("readwith", g, n, <<>>, <<>>)
 BgBlock        == N("bgblock", "", 0, <<>>, <<>>) \* a job that never ends by itself: sink </tmp/fifo & p1=$!
 WaitJob        == N("waitjob", "", 0, <<>>, <<>>) \* wait $p1
+\* `return n` (n >= 0) / `return` without operand (n = -1): only generated inside a function
+\* body or inside a trap action that is executed while a function runs
+Return(n)      == N("return", "", n, <<>>, <<>>)
 
 -----------------------------------------------------------------------------
 \* Concrete syntax
@@ -114,6 +117,7 @@ Render(nd) ==
     [] nd.k = "trapignn" -> "trap ''" \o Names(nd.b)
     [] nd.k = "trapdfln" -> "trap -" \o Names(nd.b)
     [] nd.k = "waitjob" -> "wait $p1"
+    [] nd.k = "return"  -> IF nd.n < 0 THEN "return" ELSE "return " \o ToString(nd.n)
 
 -----------------------------------------------------------------------------
 \* Semantics.  A state of the interpreter:
@@ -126,6 +130,14 @@ Render(nd) ==
 \*   intrap  the main shell is executing a trap action
 \*   tr/ctr  events of the main shell / of all other processes
 \*   halt    the main shell is blocked for ever (recorded as the pseudo event DEADLOCK)
+\*   ret     `return` has been executed: the commands up to the end of the innermost function
+\*           are not executed (XCU return; return.md).  A `return` in a trap action that runs
+\*           while a function is executed ends that function (return.md: "invoked in a trap
+\*           executed in a function ... returns from that function"); the actions of OTHER
+\*           signals caught before stay owed and run at a later command boundary - ending the
+\*           function must not lose them (each caught signal runs its action once)
+\*   pre     $? before entering the trap action being executed (`return` without operand
+\*           inside an action: "the exit status will be the value of $? before entering the trap")
 
 None == [kind |-> "dfl", body |-> <<>>]
 Ign  == [kind |-> "ign", body |-> <<>>]
@@ -134,7 +146,7 @@ Cmd(bd) == [kind |-> "cmd", body |-> bd]
 Start(init) ==
   LET t0 == [g \in SigSet |-> IF init[g] = "I" THEN Ign ELSE None]
   IN [st |-> 0, main |-> TRUE, mt |-> t0, ct |-> t0, cnt |-> [g \in SigSet |-> 0], fly |-> "",
-      intrap |-> FALSE, tr |-> <<>>, ctr |-> <<>>, init |-> init, halt |-> FALSE]
+      intrap |-> FALSE, tr |-> <<>>, ctr |-> <<>>, init |-> init, halt |-> FALSE, ret |-> FALSE, pre |-> 0]
 
 Emit(s, tag, d) ==
   LET e == [t |-> tag, st |-> s.st, d |-> d]
@@ -163,20 +175,20 @@ ExecSeq(q, S) == IF q = <<>> THEN S ELSE ExecSeq(Tail(q), UNION {Exec(q[1], s) :
 
 RunTrapOnce(g, s) ==
   LET saved == s.st
-      R == ExecSeq(s.mt[g].body, {[s EXCEPT !.intrap = TRUE]})
-  IN {[r EXCEPT !.st = saved, !.intrap = FALSE] : r \in R}
+      R == ExecSeq(s.mt[g].body, {[s EXCEPT !.intrap = TRUE, !.pre = saved]})
+  IN {[r EXCEPT !.st = IF r.ret THEN r.st ELSE saved, !.intrap = FALSE] : r \in R}
 RunTrapK(g, k, S) == IF k = 0 THEN S ELSE RunTrapK(g, k - 1, UNION {RunTrapOnce(g, s) : s \in S})
 
 \* run the actions of exactly the signals in P, in any order, each between
 \* once and as many times as it was delivered
 RunPending(P, s) ==
-  IF P = {} THEN {s}
+  IF P = {} \/ s.ret THEN {s}     \* after a `return` the remaining actions stay owed
   ELSE UNION {UNION {RunPending(P \ {gk[1]}, r) : r \in RunTrapK(gk[1], gk[2], {[s EXCEPT !.cnt[gk[1]] = 0]})}
               : gk \in {x \in P \X (1..4) : x[2] <= s.cnt[x[1]]}}
 
 \* a command boundary of the main shell
 Boundary(s) ==
-  IF ~s.main \/ s.intrap THEN {s}
+  IF ~s.main \/ s.intrap \/ s.ret THEN {s}
   ELSE LET P == {g \in SigSet : s.cnt[g] > 0 /\ s.mt[g].kind = "cmd"}
        IN IF P = {} THEN {s}
           ELSE LET R == RunPending(P, s)
@@ -202,7 +214,7 @@ InChild(s, bd, ct0) ==
   IN {[r EXCEPT !.main = s.main, !.ct = s.ct, !.intrap = s.intrap] : r \in ExecSeq(bd, {c0})}
 
 Exec(nd, s) ==
-  IF s.halt THEN {s} ELSE
+  IF s.halt \/ s.ret THEN {s} ELSE
   CASE nd.k = "probe"   -> Leaf(Emit(s, nd.s, ""))
     [] nd.k = "disp"    -> Leaf(Emit(s, nd.s, DispFrom(s, 1)))
     [] nd.k = "status"  -> Leaf([s EXCEPT !.st = nd.n])
@@ -213,9 +225,13 @@ Exec(nd, s) ==
     [] nd.k = "trapp"   -> Leaf([s EXCEPT !.st = 0])
     [] nd.k = "brace"   -> ExecSeq(nd.a, {s})
     [] nd.k = "func"    -> \* the function definition command itself succeeds ($? = 0), then the call
-                           UNION {ExecSeq(nd.a, {d}) : d \in Leaf([s EXCEPT !.st = 0])}
+                           \* (a `return` ends the call: the simple command `f` is complete, which
+                           \* is a command boundary)
+                           UNION {UNION {IF r.ret THEN Leaf([r EXCEPT !.ret = FALSE]) ELSE {r} : r \in ExecSeq(nd.a, {d})}
+                                  : d \in Leaf([s EXCEPT !.st = 0])}
+    [] nd.k = "return"  -> {[s EXCEPT !.st = IF nd.n >= 0 THEN nd.n ELSE IF s.intrap THEN s.pre ELSE s.st, !.ret = TRUE]}
     [] nd.k = "eval"    -> ExecSeq(nd.a, {s})
-    [] nd.k = "if"      -> UNION {IF c.st = 0 THEN ExecSeq(nd.b, {c}) ELSE {[c EXCEPT !.st = 0]}
+    [] nd.k = "if"      -> UNION {IF c.ret THEN {c} ELSE IF c.st = 0 THEN ExecSeq(nd.b, {c}) ELSE {[c EXCEPT !.st = 0]}
                                   : c \in ExecSeq(nd.a, {s})}
     [] nd.k = "for"     -> IF nd.n = 0 THEN {[s EXCEPT !.st = 0]} ELSE Repeat(nd.n, nd.a, {s})
     [] nd.k = "sub"     -> UNION {Leaf(r) : r \in InChild(s, nd.a, ResetTraps(s.ct))}
@@ -330,6 +346,28 @@ OtherProgs ==
     [fam |-> "async-child-traps-int-after-listing", init |-> AllDefault, opts |-> "",
      prog |-> <<TrapPrint("INT"), Async(<<TrapCmd("INT", <<Probe("C")>>), Disp("c1")>>), Disp("m1")>>] }
 
+\* `return` in a trap action that runs while a function is executed: the function ends; with
+\* two different signals caught before the same boundary the action of the other one is still
+\* owed and runs exactly once (before, or at a boundary after the function has ended)
+RetActs == { <<Probe("T1"), Return(7)>>, <<Probe("T1"), Return(-1)>>, <<Status(6), Return(-1), Probe("x")>> }
+DivertProgs ==
+  {[fam |-> "return-in-action:" \o k, init |-> AllDefault, opts |-> "",
+    prog |-> <<TrapCmd("USR1", a), Status(3), Func(<<Ctx(k, <<Kill("USR1")>>), Probe("n"), Status(2)>>), Probe("a"), Status(4), Probe("b")>>]
+   : k \in {"plain", "sub", "for", "ifc", "eval"}, a \in RetActs}
+  \cup
+  {[fam |-> "return-in-action-two-signals:" \o x[3], init |-> AllDefault, opts |-> "",
+    prog |-> <<TrapCmd(x[1][1], x[2][1]), TrapCmd(x[1][2], x[2][2]), Status(3),
+               Func(<<Sub(<<Kill(x[1][1]), Kill(x[1][2]), Status(5)>>), Probe("n"), Status(2)>>), Probe("a"), Status(4), Probe("b")>>]
+   : x \in { << <<"USR1", "USR2">>, << <<Probe("T1"), Return(7)>>, <<Probe("T2")>> >>, "first" >>,
+             << <<"USR1", "USR2">>, << <<Probe("T1")>>, <<Probe("T2"), Return(7)>> >>, "second" >>,
+             << <<"USR1", "USR2">>, << <<Probe("T1"), Return(-1)>>, <<Probe("T2"), Return(8)>> >>, "both" >>,
+             << <<"INT", "QUIT">>, << <<Probe("T1"), Return(7)>>, <<Probe("T2"), Status(9)>> >>, "int-quit" >> }}
+  \cup
+  {[fam |-> "return-in-action-nested-functions", init |-> AllDefault, opts |-> "",
+    prog |-> <<TrapCmd("USR1", <<Probe("T1"), Return(7)>>), TrapCmd("USR2", <<Probe("T2")>>), Status(3),
+               Func(<<Sub(<<Kill("USR2"), Kill("USR1"), Status(5)>>), Probe("n")>>), Probe("a"),
+               Func(<<Kill("USR1"), Probe("m")>>), Probe("b")>>]}
+
 \* the signal is sent by another process at a moment the scheduler chooses
 AsyncProgs ==
   {[fam |-> "bg:" \o k, init |-> AllDefault, opts |-> "",
@@ -402,7 +440,7 @@ ReadProgs ==
                ReadWith(x[3], x[2]), Probe("r"), Status(4), Probe("b")>>]
    : x \in ({"", "-i"} \X {0, 1, 2} \X {"USR1", "TERM"}) \cup ({"-i"} \X {3, 4} \X {"USR1", "TERM"})}
 
-Programs == CaughtProgs \cup ReadProgs \cup WaitJobProgs \cup WaitJobProgs2 \cup MultiProgs \cup SyncProgs1 \cup SyncProgs2 \cup OtherProgs \cup AsyncProgs
+Programs == DivertProgs \cup CaughtProgs \cup ReadProgs \cup WaitJobProgs \cup WaitJobProgs2 \cup MultiProgs \cup SyncProgs1 \cup SyncProgs2 \cup OtherProgs \cup AsyncProgs
             \cup (IF Level >= 2 THEN SyncProgs2All \cup SyncProgs3 ELSE {})
 
 \* Generator: one state per program; the line carries the script and the traces allowed
